@@ -174,6 +174,7 @@ inline Outcome explore(const std::string& key_prefix, const std::function<std::s
                 }
                 if (s->len < s->prefix_len && fail.empty()) fail = "vx-sched: replay divergence (execution ended before the prefix was consumed)";
                 s->executions++;
+                if (getenv("VXS_DEBUG")) { std::string a; for (int i = 0; i < s->len; i++) a += std::to_string(s->choice[i]) + "/" + std::to_string(s->arity[i]) + " "; fprintf(stderr, "exec %llu len=%d prefix=%d devs=%d: %s\n", (unsigned long long)s->executions, s->len, s->prefix_len, s->devs, a.c_str()); }
                 s->choice_points += s->len;
                 if ((uint64_t)s->len > s->max_len) s->max_len = s->len;
                 if (outcome_hash) {
